@@ -106,14 +106,20 @@ fn bases(seed: u64, tier: Tier) -> Vec<Vec<Chunk>> {
         }
     }
     if tier == Tier::Thorough {
-        let mut k = 0usize;
+        // every well-formed 2-chunk sequence over the full kind list (4 property sets, 9 programs)
+        let full = chunk_kinds(seed, false);
+        for a in 0..full.len() {
+            for b in 0..full.len() {
+                let cs = vec![full[a].clone(), full[b].clone()];
+                if lzma2::write(&cs).ill.is_none() && !v.contains(&cs) {
+                    v.push(cs);
+                }
+            }
+        }
+        // every well-formed 3-chunk sequence over the reduced kinds
         for a in 0..kinds.len() {
             for b in 0..kinds.len() {
                 for c in 0..kinds.len() {
-                    k += 1;
-                    if k % 11 != 0 {
-                        continue;
-                    }
                     let cs = vec![kinds[a].clone(), kinds[b].clone(), kinds[c].clone()];
                     if lzma2::write(&cs).ill.is_none() {
                         v.push(cs);
